@@ -63,6 +63,15 @@ impl tokio_stream::Stream for Incoming {
 }
 
 const AGE_MS: u64 = 60_000;
+async fn connect_pending(pending: &mut Vec<(u64, Shim)>, clients: &mut HashMap<u64, SvcClient<tonic::transport::Channel>>, log: &Rec) {
+    for (c, c_io) in pending.drain(..) {
+        let mut slot = Some(c_io);
+        let ch = tonic::transport::Endpoint::from_static("http://srv.test")
+            .connect_with_connector(tower::service_fn(move |_: http::Uri| { let io = slot.take(); async move { io.map(hyper_util::rt::TokioIo::new).ok_or_else(|| std::io::Error::other("gone")) } })).await;
+        match ch { Ok(ch) => { clients.insert(c, SvcClient::new(ch)); } Err(e) => log.ev(json!({"e":"client_connect_err","c":c,"msg":e.to_string()})) }
+    }
+}
+
 pub fn run(stim: &Value, rec: &Rec) {
     let log = rec.clone();
     let stim = stim.clone();
@@ -89,21 +98,22 @@ pub fn run(stim: &Value, rec: &Rec) {
         let (rq, wq, pend) = (sh["rq"].as_u64().unwrap_or(65536) as usize, sh["wq"].as_u64().unwrap_or(65536) as usize, sh["pend"].as_u64().unwrap_or(0) as usize);
         let mut clients: HashMap<u64, SvcClient<tonic::transport::Channel>> = HashMap::new();
         let mut tasks: HashMap<u8, tokio::task::JoinHandle<()>> = HashMap::new();
+        let mut pending: Vec<(u64, Shim)> = vec![];
         let mut tx = Some(tx);
         let steps = stim["steps"].as_array().cloned().unwrap_or_default();
         for (i, st) in steps.iter().enumerate() {
-            log.ev(json!({"e":"step","i":i as u64,"op":st["op"],"c":st["c"].as_u64().unwrap_or(0),"k":st["k"].as_u64().unwrap_or(0)}));
+            let nb = st["nb"].as_bool().unwrap_or(false);
+            log.ev(json!({"e":"step","i":i as u64,"op":st["op"],"c":st["c"].as_u64().unwrap_or(0),"k":st["k"].as_u64().unwrap_or(0),"nb":nb}));
             match st["op"].as_str().unwrap_or("") {
                 "offer" => {
+                    // the server's half goes into the incoming stream now; the client's half is connected at the next barrier
                     let c = st["c"].as_u64().unwrap();
                     let (c_io, s_io, _d) = Shim::pair(65536, rq, wq, pend);
                     if let Some(tx) = &tx { let _ = tx.send((c, s_io)); }
-                    let mut slot = Some(c_io);
-                    let ch = tonic::transport::Endpoint::from_static("http://srv.test")
-                        .connect_with_connector(tower::service_fn(move |_: http::Uri| { let io = slot.take(); async move { io.map(hyper_util::rt::TokioIo::new).ok_or_else(|| std::io::Error::other("gone")) } })).await;
-                    match ch { Ok(ch) => { clients.insert(c, SvcClient::new(ch)); } Err(e) => log.ev(json!({"e":"client_connect_err","c":c,"msg":e.to_string()})) }
+                    pending.push((c, c_io));
                 }
                 "send" => {
+                    connect_pending(&mut pending, &mut clients, &log).await;
                     let k = st["k"].as_u64().unwrap() as u8;
                     let c = conn_of[&k];
                     if let Some(cl) = clients.get(&c) {
@@ -130,13 +140,19 @@ pub fn run(stim: &Value, rec: &Rec) {
                 "release" => { h.gate(st["k"].as_u64().unwrap() as u8).add_permits(1); }
                 "drop" => {
                     let c = st["c"].as_u64().unwrap();
+                    pending.retain(|(pc, _)| *pc != c);
                     for (k, t) in tasks.iter() { if conn_of[k] == c && !t.is_finished() { t.abort(); log.ev(json!({"e":"call_aborted","k":*k})); } }
                     clients.remove(&c);
                 }
                 _ => {}
             }
-            tokio::time::sleep(Duration::from_millis(1)).await;
+            // nb ("no barrier"): the next step is applied in the same scheduler tick, before any server task has run
+            if !nb {
+                connect_pending(&mut pending, &mut clients, &log).await;
+                tokio::time::sleep(Duration::from_millis(1)).await;
+            }
         }
+        connect_pending(&mut pending, &mut clients, &log).await;
         // epilogue: let every handler finish, then every client go away
         log.ev(json!({"e":"epilogue"}));
         for k in items.keys() { h.gate(*k).add_permits(64); }
